@@ -87,6 +87,10 @@ class DataIndexView(BaseDataIndex):
                     yield key, value
                     if ensure_loaded:
                         yield from self._load_dir_keys(key, value, shallow=shallow)
+                elif value and ensure_loaded:
+                    # an entry at the root key is not yielded, but its directory
+                    # has to be loaded like any other
+                    yield from self._load_dir_keys(key, value, shallow=shallow)
 
     def _load_dir_keys(
         self,
